@@ -195,12 +195,30 @@ def _docs(tier):
     return _DOCS[tier]
 
 
+GRID_PAIRS = [(7, 3), (5, 3), (7, 5), (11, 3), (9, 7), (12, 5), (13, 2), (16, 7), (48, 7), (32, 3), (24, 5)]
+
+
 def roots(tier, seed):
     n = len(_docs(tier))
-    return [dict(kind="docs", start=s, stop=min(n, s + CHUNK)) for s in range(0, n, CHUNK)] + [dict(kind="routes")]
+    return [dict(kind="docs", start=s, stop=min(n, s + CHUNK)) for s in range(0, n, CHUNK)] + [dict(kind="routes")] + [dict(kind="grid", pair=list(p)) for p in GRID_PAIRS]
+
+
+def check_grid(a, b, ctx):
+    """Every row of a measure: notes at ALL k/a beats (column 0) and ALL j/b beats (column 1) of two measures, so that every row
+    index the writer can compute for that subdivision mix is exercised (truncation of a float row index shows up here)."""
+    doc = default_doc()
+    doc["charts"][0]["notes"] = [("hit", F(k, a), 0, None) for k in range(0, 4 * a)] + [("hit", F(j, b), 1, None) for j in range(0, 4 * b)] + [("mine", 4 + F(k, a), 2, None) for k in range(1, 4 * a, 3)] + [("hit", 4 + F(j, b), 3, None) for j in range(2, 4 * b, 2)]
+    case = dict(grid=[a, b])
+    ctx.case()
+    ctx.state(("sm-grid", a, b), nontrivial=True)
+    ms, dens, segs = build_mapset(doc)
+    judge(ms, dens, rows_needed(doc) <= 384, 120.0, dict(route="grid", devs=[f"{a}x{b}"]), case, ctx)
 
 
 def explore(root, tier, ctx):
+    if root["kind"] == "grid":
+        check_grid(root["pair"][0], root["pair"][1], ctx)
+        return
     if root["kind"] == "routes":
         for r in ROUTES:
             check_route(r, ctx)
@@ -212,7 +230,9 @@ def explore(root, tier, ctx):
 
 
 def replay(case, ctx):
-    if "route" in case:
+    if "grid" in case:
+        check_grid(case["grid"][0], case["grid"][1], ctx)
+    elif "route" in case:
         check_route(case["route"], ctx)
     else:
         check(tuple(tuple(x) for x in case["devs"]), tuple(case["seq"]), ctx)
